@@ -51,6 +51,7 @@ SegDocsQ == {
   O1(kA, A1(O1(kA, A2(I(1), I(2))))),
   A3(O1(kA, I(1)), O2(kA, I(2), kB, I(3)), O1(kB, O1(kA, I(4)))),
   O1(kQ, O1(kS, O1(kE, A1(I(1))))),
+  A3(I(1), I(1), A2(I(1), I(1))),                 \* equal values at different locations: nodups is by location, not by value
   I(1), EmptyArr, EmptyObj }
 SegDocsT == SegDocsQ \cup {
   A1(A1(A2(I(1), I(2)))),
@@ -73,9 +74,12 @@ FilterDocs == {
   JArr(<<A2(I(1), I(2)), A2(I(2), I(1)), A1(I(1)), EmptyArr, Str(<<115, 233>>)>>),
   JArr(<<O2(kA, I(1), kB, I(1)), O2(kA, I(1), kB, I(2)), O2(kA, I(2), kB, I(1)), O2(kA, Str(<<115>>), kB, Str(<<115>>)), O2(kA, Str(<<115>>), kB, Str(<<116>>))>>) }
 
+FilterDocsT == FilterDocs \cup {
+  JArr(<<O1(kM, Str(kM)), O1(kM, Str(<<115>>)), O1(kE, Str(kM)), O2(kA, Str(kM), kM, I(1)), Str(kM), A2(Str(<<115>>), Str(kM))>>),
+  JArr(<<A2(I(2), I(1)), A3(I(0), I(2), I(2)), Str(<<115, 233>>), Str(<<115>>), Str(<<115, 233, 116>>), O1(kA, Str(<<115, 233>>)), I(2)>>) }
 Docs == CASE Mode = "seg" -> (IF Big THEN SegDocsT ELSE SegDocsQ)
           [] Mode = "slice" -> SliceDocs
-          [] Mode = "filter" -> FilterDocs
+          [] Mode = "filter" -> (IF Big THEN FilterDocsT ELSE FilterDocs)
 
 \* ---------------------------------------------------------------- segment alphabets
 N(k) == Child(<<SName(k)>>)
@@ -138,8 +142,10 @@ SliceSegs == { Child(<<Sl(s, e, st)>>) : s \in Bounds, e \in Bounds, st \in Step
 
 \* filters
 FPaths == { <<>>, <<N(kA)>>, <<N(kB)>>, <<Ix(0)>>, <<Ix(0 - 1)>>, <<N(kA), N(kA)>>, <<N(kA), Ix(0)>> }
+          \cup (IF Big THEN { <<N(kM)>>, <<N(kE)>>, <<Ix(1)>> } ELSE {})
 FOperands == { Cur(p) : p \in FPaths } \cup { Root(<<Ix(0), N(kA)>>), Root(<<Ix(1)>>) }
 FLits == { L(I(0)), L(I(1)), L(I(0 - 1)), L(Str(<<115>>)), L(Str(<<>>)), L(JNull), L(JBool(TRUE)), L(JBool(FALSE)) }
+         \cup (IF Big THEN { L(Str(kM)), L(I(2)), L(Str(<<115, 233>>)) } ELSE {})
 CmpOps == {"==", "!=", "<", "<=", ">", ">="}
 FCmpPL == { FCmp(op, x, y) : op \in CmpOps, x \in FOperands, y \in FLits }
 FCmpLP == { FCmp(op, y, x) : op \in CmpOps, x \in {Cur(<<>>), Cur(<<N(kA)>>)}, y \in {L(I(1)), L(Str(<<115>>)), L(JNull)} }
